@@ -233,6 +233,39 @@ def degenerate(rng, count, types=("d",), nmax=24):
     return out
 
 
+def tie_descs(rng, count, types=("d",)):
+    """C13: spectra with EXACT ties in the selection key at subspace sizes beyond the small-array paths of the sorting routines
+    (ncv 17..40): zero, identity, few distinct eigenvalues, permutation / cyclic / orthogonal matrices, every rule as selection and as
+    sorting argument, a second compute() without init()."""
+    out = []
+    for i in range(count):
+        ty = rng.choice(types)
+        herm = i % 2 == 0
+        n = rng.randint(20, 44)
+        if herm:
+            cls = rng.choice(["sym", "sym", "herm"])
+            f = rng.choice([dict(fam="zero"), dict(fam="ident"), dict(fam="presc", spec="rep", mult=rng.choice([n, n // 2, 5])),
+                            dict(fam="diag", spec="rep", mult=rng.choice([4, 9])), dict(fam="presc", spec="lowrank", rank=rng.randint(1, 3))])
+            if cls == "herm":
+                f = rng.choice([dict(fam="zero"), dict(fam="presc", spec="rep", mult=rng.choice([n, 6])), dict(fam="presc", spec="lowrank", rank=2)])
+            nev = rng.randint(1, 6)
+            ncv = rng.randint(max(17, nev + 1), n)
+            sel, sort = HERM_SEL[i // 2 % len(HERM_SEL)], HERM_SORT[i // 2 % len(HERM_SORT)]
+        else:
+            cls = "gen"
+            f = rng.choice([dict(fam="zero"), dict(fam="ident"), dict(fam="perm"), dict(fam="cyc"), dict(fam="orth"), dict(fam="skew"),
+                            dict(fam="fewdist", nd=rng.choice([1, 2, 3])), dict(fam="nilp")])
+            nev = rng.randint(1, 6)
+            ncv = rng.randint(max(17, nev + 2), n)
+            sel, sort = GEN_RULES[i // 2 % len(GEN_RULES)], GEN_RULES[(i // 2 + 2) % len(GEN_RULES)]
+        a0 = "%d:%d:%s:%d" % (sel, rng.choice([0, 1, 3, 30]), tol_for(rng, ty), sort)
+        kw = dict(cls=cls, ty=ty, n=n, nev=nev, ncv=ncv, seed=rng.randint(1, 10 ** 6), hist=rng.choice(["N,I,C0", "N,V1,C0", "N,I,C0,C0"]), args0=a0,
+                  lgs=rng.choice([0, 0, -10, 13]), sv1=rng.choice(["rnd", "ones", "e1"]), meas=0, mconv=0, ref=0)
+        kw.update(f)
+        out.append(desc(**kw))
+    return out
+
+
 def history_descs(rng, count, types=("d",), classes=("sym", "symsh", "herm", "gen", "genrs", "gencs"), maxlen=3, nmax=24, exhaustive_for=None):
     """C06: 'init(v); compute(args)' observed after every history over the call alphabet (prefix lengths 0..maxlen), against the
     baseline of a fresh object; P probes the operator before and after."""
@@ -513,7 +546,12 @@ def pub_history_descs(rng, seqs, classes=("sym", "symsh", "herm", "gen", "genrs"
             obs = rng.choice(["I,C0", "V1,C0", "I,C1"])
             # baseline on a fresh object; then a second object lives through the generated history FROM ITS CONSTRUCTION (the generator's
             # initial state is the fresh object) and is observed with the same pair
-            kw["hist"] = "N,P," + obs + ",P,N" + ("," + seq if seq else "") + ",F0," + obs + ",P"
+            # shift classes: between the two objects somebody else uses the OPERATOR object with another shift and puts the shift back (token S):
+            # the operator's behaviour (probe P) and the outcome of the observed pair must not depend on that
+            resh = ",S,P" if cls in ("symsh", "genrs", "gencs", "gsi", "gbuck", "gcay") else ""
+            kw["hist"] = "N,P," + obs + ",P" + resh + ",N" + ("," + seq if seq else "") + ",F0," + obs + ",P"
+            if resh:
+                kw["resig"] = rng.choice(["0.21", "-0.77", "1.3", "-20", "0"])
             kw.update(sv1=rng.choice(["rnd", "rnd2"]), sv2=rng.choice(["rnd", "rnd2"]), meas=0, mconv=0, ref=0)
             out.append(desc(**kw))
     return out
@@ -627,7 +665,7 @@ def breakdown_descs(rng, count, types=("d",), gen=None, meas=2):
 
 
 def near_descs(rng, classes=("sym", "herm", "gen"), types=("d",), meas=2):
-    """NEAR breakdowns, systematically: start vector 10^dlt (dlt = -8 .. -12) away from an invariant subspace - the leading block of a
+    """NEAR breakdowns, systematically: start vector 10^dlt (dlt = -8 .. -15) away from an invariant subspace - the leading block of a
     block-diagonal matrix (the near breakdown happens inside factorize_from, at step blk) or an eigenvector e1 of a diagonal / triangular
     matrix (it happens in Arnoldi::init).  The residual at the would-be breakdown is about 10^dlt: far above rounding level, so it must
     be kept and the basis must stay orthonormal; thresholds that are a few orders too generous drop it."""
@@ -635,8 +673,10 @@ def near_descs(rng, classes=("sym", "herm", "gen"), types=("d",), meas=2):
     i = 0
     for cls in classes:
         gen = cls == "gen"
-        for dlt in (-8, -9, -10, -11, -12):
+        for dlt in (-8, -9, -10, -11, -12, -13, -14, -15):
             for kind in ("blk2", "blk3", "blk4", "e1"):
+                if dlt < -12 and kind in ("blk3", "blk4"):
+                    continue   # down to the level where the residual is a few hundred rounding errors: e1 (in init) and one block size
                 i += 1
                 ty = types[i % len(types)]
                 n = 12 + (i * 5) % 11
